@@ -98,39 +98,44 @@ LEVEL_NOTE = ("not a symbolic proof: differences below 1e-6 of the term magnitud
               "harness's formula for the operator")
 
 
+_ACC = {"reached": set(), "reached_nt": set(), "accepted": 0, "rejected": 0, "pts": 0, "resolved": 0, "fnz": 0}
+
+
 def post_stage(stage, res, verdict):
-    """Coverage bookkeeping: which source-term classes did the command-line enumeration reach."""
-    reached, reached_nt = set(), set()
-    accepted = rejected = 0
-    pts = resolved = fnz = 0
+    """Coverage bookkeeping (accumulated over the stages): which source-term classes did the enumeration reach."""
     for o in res["obs"]:
         info = o.get("info") or {}
         if info.get("accepted"):
-            accepted += 1
+            _ACC["accepted"] += 1
         else:
-            rejected += 1
+            _ACC["rejected"] += 1
             continue
         cls = info.get("source_class")
         if not cls:
             continue
-        reached.add(cls)
+        _ACC["reached"].add(cls)
         if o.get("nontrivial"):
-            reached_nt.add(cls)
+            _ACC["reached_nt"].add(cls)
         if "Culham" not in cls:
-            n = (o.get("params") or {}).get("points", 0)
-            pts += n
-            resolved += info.get("resolved", 0)
-            fnz += info.get("f_nonzero", 0)
-    non_culham = sorted(c for c in reached if "Culham" not in c)
-    culham = sorted(c for c in reached if "Culham" in c)
-    verdict.extra["cli_combinations_accepted"] = accepted
-    verdict.extra["cli_combinations_rejected"] = rejected
+            _ACC["pts"] += (o.get("params") or {}).get("points", 0)
+            _ACC["resolved"] += info.get("resolved", 0)
+            _ACC["fnz"] += info.get("f_nonzero", 0)
+
+
+def finalize(verdict):
+    if getattr(verdict, "replay_mode", False):
+        return
+    non_culham = sorted(c for c in _ACC["reached"] if "Culham" not in c)
+    culham = sorted(c for c in _ACC["reached"] if "Culham" in c)
+    pts = _ACC["pts"]
+    verdict.extra["cli_combinations_accepted"] = _ACC["accepted"]
+    verdict.extra["cli_combinations_rejected"] = _ACC["rejected"]
     verdict.extra["source_classes_reached_non_culham"] = len(non_culham)
     verdict.extra["source_classes_reached_culham"] = len(culham)
-    verdict.extra["source_classes_nontrivial"] = len(reached_nt)
+    verdict.extra["source_classes_nontrivial"] = len(_ACC["reached_nt"])
     verdict.extra["source_points"] = pts
-    verdict.extra["source_points_resolved_fraction"] = round(resolved / pts, 4) if pts else 0.0
-    verdict.extra["source_points_f_nonzero_fraction"] = round(fnz / pts, 4) if pts else 0.0
+    verdict.extra["source_points_resolved_fraction"] = round(_ACC["resolved"] / pts, 4) if pts else 0.0
+    verdict.extra["source_points_f_nonzero_fraction"] = round(_ACC["fnz"] / pts, 4) if pts else 0.0
     if len(non_culham) < EXPECTED_NON_CULHAM_CLASSES:
         verdict.inconclusive.append("command-line enumeration reached only %d of %d non-Culham source-term classes" % (
             len(non_culham), EXPECTED_NON_CULHAM_CLASSES))
